@@ -106,6 +106,28 @@ Section spec_obs.
     merge_sort lock_le (filter (fun kv => sclock m < l_expiry kv.2) (map_to_list (f_leases (fs m)))).
   Definition s_details (m : sstate) : list (txid * option details) :=
     map (fun t => (t_id t, spec_details U (fs m) (t_id t))) (tc_universe c).
+  (** what range iteration must report, from the facts alone: one group per
+      confirmed height inside the range (ascending, or descending when
+      begin >= end after the -1 substitution), holding exactly the
+      transactions confirmed at that height; the unconfirmed group first when
+      begin < 0, last when only end < 0 *)
+  Definition s_range (m : sstate) (q : Z * Z) : list (Z * list txid) :=
+    let '(b, e) := q in
+    let b' := if bool_decide (b < 0) then max_i32 else b in
+    let e' := if bool_decide (e < 0) then max_i32 else e in
+    let confs := map_to_list (f_conf (fs m)) in
+    let hs := merge_sort Z.le (remove_dups (map (fun kv : txid * blockid => kv.2.1) confs)) in
+    let sel := if bool_decide (b' < e')
+               then filter (fun h => b' <= h ∧ h <= e') hs
+               else reverse (filter (fun h => e' <= h ∧ h <= b') hs) in
+    let groups := map (fun h => (h, merge_sort N_le'
+                        (omap (fun kv : txid * blockid => if bool_decide (kv.2.1 = h) then Some kv.1 else None) confs))) sel in
+    let unm := match elements (f_unconf (fs m)) with
+               | [] => []
+               | l => [(-1, merge_sort N_le' l)]
+               end in
+    if bool_decide (b < 0) then unm ++ groups
+    else groups ++ (if bool_decide (e < 0) then unm else []).
   Definition s_tip (m : sstate) : Z := foldr Z.max (-1) (map (fun kv : txid * blockid => kv.2.1) (map_to_list (f_conf (fs m)))).
 End spec_obs.
 
@@ -138,7 +160,10 @@ Definition check_event (U : universe) (c : tcase) (m : mstate) (sm : sstate) (o 
            [ (eqb_on (m_details U c m) (io_details io), 18%nat);
              (eqb_on (m_unique U c m) (io_unique io), 19%nat);
              (forallb (fun qr => eqb_on (m_range U m qr.1) qr.2) (io_ranges io), 20%nat);
-             (eqb_on (s_details U c sm) (io_details io), 118%nat) ]
+             (eqb_on (s_details U c sm) (io_details io), 118%nat);
+             (forallb (fun qr => eqb_on (s_range sm qr.1)
+                                        (map (fun g : Z * list txid => (g.1, merge_sort N_le' g.2)) qr.2))
+                      (io_ranges io), 120%nat) ]
          else [])).
 
 Fixpoint check_events (U : universe) (c : tcase) (i : nat) (m : mstate) (sm : sstate)
